@@ -813,14 +813,34 @@ func (ix *PkgIndex) workFunc(fn *FuncInfo, pred func(ast.Node) bool) (work *Func
 }
 
 // delegateUnder: when fn's body is the single statement `return h(args…)` (or the bare call) to a declared function h of the
-// package, rules about fn are judged on h instead, restricted to the part of h that is reachable when the parameters that
-// receive compile-time constants at that call hold those constants (a shared implementation selected by a mode argument).
-// live(n) tells whether statement n of h is reachable under those facts. Otherwise it returns fn and a predicate that is true.
+// package, rules about fn are judged on h instead — specialised to this call: parameters of h that receive compile-time
+// constants here (a shared implementation selected by a mode argument) hold those constants, and every `if` whose condition
+// folds under them (through locals with a single definition, `isDelta := mode == Delta`) is replaced by the branch taken. The
+// result is a FuncInfo for h whose body is that pruned syntax tree; it shares every untouched node with the original, so the
+// type information applies unchanged. Without constant arguments it is h itself; when fn is no such delegation it is fn.
+// The second result is kept for callers that ask whether a statement is live: it is always true on the pruned body.
 func (ix *PkgIndex) delegateUnder(fn *FuncInfo) (work *FuncInfo, live func(ast.Node) bool) {
 	all := func(ast.Node) bool { return true }
 	if fn == nil || fn.Lit != nil || fn.Body() == nil || len(fn.Body().List) != 1 {
 		return fn, all
 	}
+	ix.mu.Lock()
+	if ix.specs == nil {
+		ix.specs = map[*FuncInfo]*FuncInfo{}
+	}
+	if s, ok := ix.specs[fn]; ok {
+		ix.mu.Unlock()
+		return s, all
+	}
+	ix.mu.Unlock()
+	work = ix.specialise(fn)
+	ix.mu.Lock()
+	ix.specs[fn] = work
+	ix.mu.Unlock()
+	return work, all
+}
+
+func (ix *PkgIndex) specialise(fn *FuncInfo) *FuncInfo {
 	info := fn.Info()
 	var call *ast.CallExpr
 	switch s := fn.Body().List[0].(type) {
@@ -832,11 +852,11 @@ func (ix *PkgIndex) delegateUnder(fn *FuncInfo) (work *FuncInfo, live func(ast.N
 		call, _ = unparen(s.X).(*ast.CallExpr)
 	}
 	if call == nil || call.Ellipsis.IsValid() {
-		return fn, all
+		return fn
 	}
 	h := ix.declByObj(callee(info, call))
-	if h == nil || h == fn || h.Body() == nil {
-		return fn, all
+	if h == nil || h == fn || h.Body() == nil || h.Decl == nil {
+		return fn
 	}
 	ps := h.Obj.Type().(*types.Signature).Params()
 	consts := map[types.Object]constant.Value{}
@@ -848,46 +868,170 @@ func (ix *PkgIndex) delegateUnder(fn *FuncInfo) (work *FuncInfo, live func(ast.N
 			consts[ps.At(i)] = tv.Value
 		}
 	}
-	// a parameter that is written or whose address is taken in h does not keep its constant
 	hinfo := h.Info()
-	ast.Inspect(h.Body(), func(n ast.Node) bool {
-		switch s := n.(type) {
-		case *ast.AssignStmt:
-			for _, l := range s.Lhs {
-				delete(consts, objOf(hinfo, l))
-			}
-		case *ast.IncDecStmt:
-			delete(consts, objOf(hinfo, s.X))
-		case *ast.UnaryExpr:
-			if s.Op == token.AND {
-				delete(consts, objOf(hinfo, s.X))
-			}
-		case *ast.RangeStmt:
-			for _, e := range []ast.Expr{s.Key, s.Value} {
-				if e != nil {
-					delete(consts, objOf(hinfo, e))
-				}
-			}
+	for p := range consts {
+		// a parameter that is written or whose address is taken in h does not keep its constant
+		if assignedIn(hinfo, h.Body(), p) {
+			delete(consts, p)
 		}
-		return true
-	})
-	if len(consts) == 0 {
-		return h, all
 	}
-	env := func(e ast.Expr) (constant.Value, bool) {
+	if len(consts) == 0 {
+		return h
+	}
+	g := ix.FG(h)
+	env := g.withLocals(func(e ast.Expr) (constant.Value, bool) {
 		if id, ok := unparen(e).(*ast.Ident); ok {
 			if v, has := consts[hinfo.Uses[id]]; has {
 				return v, true
 			}
 		}
 		return nil, false
+	})
+	fold := func(cond ast.Expr) (bool, bool) {
+		v, known := evalConst(hinfo, cond, env)
+		if !known || v.Kind() != constant.Bool {
+			return false, false
+		}
+		return constant.BoolVal(v), true
 	}
-	g := ix.FG(h)
-	seen := g.ReachUnder(env)
-	return h, func(n ast.Node) bool {
-		x := g.NodeOf(n)
-		return x == nil || seen[x]
+	changedAny := false
+	var pruneStmt func(s ast.Stmt) ast.Stmt
+	pruneList := func(list []ast.Stmt) ([]ast.Stmt, bool) {
+		var out []ast.Stmt
+		changed := false
+		for _, s := range list {
+			n := pruneStmt(s)
+			if n != s {
+				changed = true
+			}
+			if n != nil {
+				out = append(out, n)
+			}
+		}
+		return out, changed
 	}
+	pruneBlock := func(b *ast.BlockStmt) *ast.BlockStmt {
+		if b == nil {
+			return nil
+		}
+		list, changed := pruneList(b.List)
+		if !changed {
+			return b
+		}
+		return &ast.BlockStmt{Lbrace: b.Lbrace, List: list, Rbrace: b.Rbrace}
+	}
+	pruneStmt = func(s ast.Stmt) ast.Stmt {
+		switch x := s.(type) {
+		case *ast.BlockStmt:
+			return pruneBlock(x)
+		case *ast.IfStmt:
+			if val, known := fold(x.Cond); known {
+				changedAny = true
+				var repl []ast.Stmt
+				if x.Init != nil {
+					repl = append(repl, x.Init)
+				}
+				if val {
+					repl = append(repl, pruneBlock(x.Body))
+				} else if x.Else != nil {
+					if e := pruneStmt(x.Else); e != nil {
+						repl = append(repl, e)
+					}
+				}
+				return &ast.BlockStmt{Lbrace: x.Pos(), List: repl, Rbrace: x.End() - 1}
+			}
+			nb := pruneBlock(x.Body)
+			var ne ast.Stmt
+			if x.Else != nil {
+				ne = pruneStmt(x.Else)
+			}
+			if nb == x.Body && ne == x.Else {
+				return x
+			}
+			cp := *x
+			cp.Body, cp.Else = nb, ne
+			return &cp
+		case *ast.ForStmt:
+			if nb := pruneBlock(x.Body); nb != x.Body {
+				cp := *x
+				cp.Body = nb
+				return &cp
+			}
+		case *ast.RangeStmt:
+			if nb := pruneBlock(x.Body); nb != x.Body {
+				cp := *x
+				cp.Body = nb
+				return &cp
+			}
+		case *ast.LabeledStmt:
+			if ns := pruneStmt(x.Stmt); ns != x.Stmt && ns != nil {
+				cp := *x
+				cp.Stmt = ns
+				return &cp
+			}
+		case *ast.SwitchStmt, *ast.TypeSwitchStmt, *ast.SelectStmt:
+			var body *ast.BlockStmt
+			switch y := x.(type) {
+			case *ast.SwitchStmt:
+				body = y.Body
+			case *ast.TypeSwitchStmt:
+				body = y.Body
+			case *ast.SelectStmt:
+				body = y.Body
+			}
+			var clauses []ast.Stmt
+			changed := false
+			for _, cl := range body.List {
+				switch cc := cl.(type) {
+				case *ast.CaseClause:
+					if list, ch := pruneList(cc.Body); ch {
+						cp := *cc
+						cp.Body = list
+						clauses = append(clauses, &cp)
+						changed = true
+						continue
+					}
+				case *ast.CommClause:
+					if list, ch := pruneList(cc.Body); ch {
+						cp := *cc
+						cp.Body = list
+						clauses = append(clauses, &cp)
+						changed = true
+						continue
+					}
+				}
+				clauses = append(clauses, cl)
+			}
+			if changed {
+				nb := &ast.BlockStmt{Lbrace: body.Lbrace, List: clauses, Rbrace: body.Rbrace}
+				switch y := x.(type) {
+				case *ast.SwitchStmt:
+					cp := *y
+					cp.Body = nb
+					return &cp
+				case *ast.TypeSwitchStmt:
+					cp := *y
+					cp.Body = nb
+					return &cp
+				case *ast.SelectStmt:
+					cp := *y
+					cp.Body = nb
+					return &cp
+				}
+			}
+		}
+		return s
+	}
+	body := pruneBlock(h.Body())
+	if !changedAny {
+		body = h.Body()
+	}
+	decl := *h.Decl
+	decl.Body = body
+	spec := *h
+	spec.Decl = &decl
+	spec.Spec = consts
+	return &spec
 }
 
 // fieldStore is an effective store `X.F = rhs` performed by a function body: written there directly, or by a declared helper of
@@ -940,6 +1084,27 @@ func (ix *PkgIndex) fieldStores(fn *FuncInfo, body ast.Node) []fieldStore {
 			for j := 0; j < ps.Len() && j < len(call.Args); j++ {
 				if sameVar(info, rhs, ps.At(j)) && !assignedIn(info, h.Body(), ps.At(j)) {
 					st.Rhs, st.Mapped = call.Args[j], true
+				}
+			}
+			// a method called on the caller's own receiver that stores something of that receiver (s.start): the expression
+			// means the same in both functions
+			if !st.Mapped && h.Recv() != nil && fn.Recv() != nil {
+				if recv, _ := methodCall(info, call); recv != nil && sameVar(info, recv, fn.Recv()) {
+					onlyRecv, any := true, false
+					ast.Inspect(rhs, func(m ast.Node) bool {
+						if id, ok := m.(*ast.Ident); ok {
+							if v, isV := info.Uses[id].(*types.Var); isV && !v.IsField() {
+								any = true
+								if v != h.Recv() {
+									onlyRecv = false
+								}
+							}
+						}
+						return true
+					})
+					if any && onlyRecv && !assignedIn(info, h.Body(), h.Recv()) {
+						st.Mapped = true
+					}
 				}
 			}
 			out = append(out, st)
